@@ -50,11 +50,12 @@ namespace simdrv {
 
 FILE* g_out = nullptr;
 std::string g_trace_path;
-bool g_teardown = false;
+
+bool g_muted = false;
 
 void emit(char const* fmt, ...)
 {
-	if (g_teardown) return;
+	if (g_muted) return;
 	va_list ap;
 	va_start(ap, fmt);
 	vfprintf(g_out, fmt, ap);
